@@ -420,6 +420,14 @@ func runC01(c *ctx) {
 			c01Eval(c, c01Case{Source: "constructors", Msg: gg.Msg(it, true)})
 		}
 	}
+	// a message whose text is longer than any single item can be (a list of large items): the 4-byte message length
+	// is the only bound
+	{
+		half := &ref.Item{Kind: ref.A, Str: bytes.Repeat([]byte("h"), 9<<20)}
+		gg := gen.New(r, gen.Profile{})
+		c.Class("message-longer-than-16MiB")
+		c01Eval(c, c01Case{Source: "constructors", Msg: gg.Msg(&ref.Item{Kind: ref.L, Children: []*ref.Item{half, half}}, true)})
+	}
 	// nesting chains
 	for _, depth := range []int{1, 2, 10, 40, c.pick(200, 2000)} {
 		it := &ref.Item{Kind: ref.U2, Slots: []ref.Slot{{Uint: 0xBEEF}}}
@@ -441,7 +449,7 @@ func runC01(c *ctx) {
 	}
 	g := gen.New(r, gen.Profile{})
 	c01Eval(c, c01Case{Source: "constructors", Msg: g.Msg(&ref.Item{Kind: ref.L, Children: []*ref.Item{all, allA}}, true)})
-	c.Required = []string{"source/constructors", "source/template", "source/sml", "source/decoder", "source/restamped", "lists-of-empty-items", "items-at-the-size-limit", "shape/maxlenbytes=2", "shape/maxlenbytes=3"}
+	c.Required = []string{"source/constructors", "source/template", "source/sml", "source/decoder", "source/restamped", "lists-of-empty-items", "items-at-the-size-limit", "message-longer-than-16MiB", "shape/maxlenbytes=2", "shape/maxlenbytes=3"}
 }
 
 func replayC01(c *ctx, raw json.RawMessage) {
